@@ -921,6 +921,33 @@ def cmdOwn (args : List String) : String :=
     | _ => "bad-request"
   | _ => "bad-request"
 
+/-! ### the ladder of the expression parser: tokens in, tree out -/
+namespace LadderP
+open DDP.LadderParse
+
+def tokOf (s : String) : Option Tok :=
+  if s == "(" then some .lp else if s == ")" then some .rp
+  else match s.toList with
+    | 'a' :: r => (String.ofList r).toNat?.map .atom
+    | 'o' :: r => (String.ofList r).toNat?.map .bop
+    | 'u' :: r => (String.ofList r).toNat?.map .uop
+    | _ => none
+
+def render : E → String
+  | .atom a => s!"(atom {a})"
+  | .un u e => s!"(un {u} {render e})"
+  | .bin o l r => s!"(bin {o} {render l} {render r})"
+
+end LadderP
+
+def cmdLadder (args : List String) : String :=
+  match args.mapM LadderP.tokOf with
+  | none => "bad-request"
+  | some ts =>
+    match DDP.LadderParse.parseAll DDP.Ladder.ddpTbl ts with
+    | some e => LadderP.render e
+    | none => "none"
+
 def dispatch (line : String) : String :=
   match (line.splitOn " ").filter (· ≠ "") with
   | "scan" :: args => cmdScan args
@@ -955,6 +982,7 @@ def dispatch (line : String) : String :=
   | "duden" :: args => cmdDuden args
   | "abi" :: args => cmdAbi args
   | "own" :: args => cmdOwn args
+  | "ladder" :: args => cmdLadder args
   | _ => "bad-request"
 
 
